@@ -84,7 +84,7 @@ theorem err_call_core (hP : P.length < 65536)
     (c cq : CState) (slot0 : JSlot) (sc : Scope) (rs : List Scope) (pool : List KConst) (ps : List (List KConst))
     (n2 : Nat) (env env_a : Env) (s s_a s' : SS) (vs : List Value) (ev : Value) (epos : Pos)
     (hs : c.scopes = sc :: rs) (hp : c.pools = pool :: ps) (hl : c.lim ≤ 240) (htop : sc.top = false)
-    (hm : w = true → c.map.length = c.buf.length)
+    (hm : c.map.length = c.buf.length)
     (hcc : cCall (cValue fuel) {} (.sym f) args c = some (slot0, cq))
     (hsa : evalArgs (n2 + 1) c.cur env args s = .ok (vs, env_a) s_a) (happ : applyFn (n2 + 1) c.cur (.cfun f) vs s_a = .err ev epos s')
     (hE : EnvS G c.scopes env s.boxes.size sc.ra) :
@@ -125,11 +125,11 @@ theorem err_call_core (hP : P.length < 65536)
   have hp1 : ({ c with vals := vals1 } : CState).pools = pool :: ps := hp
   obtain ⟨ra2, ns2, more2, seg2, segm2, hc2, pv2, r1a, r3a, sok2, bx2, es2, nf2, vm2⟩ :=
     toSlots_correct p f0 rest V P G (TF G b) w (fuel' + 1) IH (tf_ML G b w (fuel' + 1)) (fun a h => h.notSplice) args hTa _ c2 slots sc rs pool ps
-      (n2 + 1) c.cur env env_a s s' vs hs1 hp1 hl htop hm h2 hsa hE
+      (n2 + 1) c.cur env env_a s s' vs hs1 hp1 hl htop (fun _ => hm) h2 hsa hE
   -- compile-only: the operands' map segment is as long as their code
   have hlen2 : segm2.length = seg2.length := by
     obtain ⟨ra', ns', more', seg', segm', hc2', _, _, hl'⟩ :=
-      toSlots_shape G (fuel' + 1) (tf_shape_at G (fuel' + 1)) b args hTa _ c2 slots sc rs pool ps hs1 hp1 htop hE.lkl h2
+      toSlots_shapeM G (fuel' + 1) (tf_shapeM_at G (fuel' + 1)) b args hTa _ c2 slots sc rs pool ps hs1 hp1 htop hm hE.lkl h2
     have eb : ({ c with vals := vals1 } : CState).buf ++ seg2 = ({ c with vals := vals1 } : CState).buf ++ seg' := by
       have e1 : c2.buf = ({ c with vals := vals1 } : CState).buf ++ seg2 := by rw [hc2]
       have e2 : c2.buf = ({ c with vals := vals1 } : CState).buf ++ seg' := by rw [hc2']
